@@ -1,7 +1,8 @@
 /-
-C18 — EXACTNESS of the model on the fragment: whatever the strict constant propagation
-`cp… (strict := true)` knows (constants and stack addresses computed from constants alone, no signed
-overflow), the block-local pointer-inference state of the model knows as the same singleton value.
+C18 — EXACTNESS of the model on the fragment: whatever the constant propagation `cp…` knows (constants
+and stack addresses computed from constants alone — with or without signed overflows: the theorems hold
+for every value of `strict`, in particular for the full fragment `strict := false`), the block-local
+pointer-inference state of the model knows as the same singleton value.
 Exactness on singletons is `C01.binOp_eq_ref` & co.; read-after-write of stack cells is the `MemRegion`
 cell discipline.
 -/
@@ -27,78 +28,44 @@ theorem bytes_of_width (b : Bv) (n : Nat) (h : b.w = 8 * n) : b.bytes = n := by
 
 /-! ### singleton intervals -/
 
-theorem addChecked_exact (a b r : Bv) (hs : (addChecked a b).isSome = true)
-    (href : Ref.binOp .IntAdd a b = .val r) : addChecked a b = some r := by
+theorem itv_add_exact (a b r : Bv) (hw : a.w = b.w) (href : Ref.binOp .IntAdd a b = .val r) :
+    Itv.add (.single a) (.single b) = .single r := by
   obtain ⟨aw, av⟩ := a
   obtain ⟨bw, bv⟩ := b
-  simp only [addChecked] at hs ⊢
-  split at hs
-  · next hw =>
-    subst hw
-    simp only [Ref.binOp, sameW, valV, dite_true, ← C01.add_eq] at href
-    cases href
-    split at hs
-    · simp at hs
-    · next hc => simp [hc]
-  · simp at hs
+  simp only at hw
+  subst hw
+  simp only [Ref.binOp, sameW, valV, dite_true, ← C01.add_eq] at href
+  cases href
+  simp [Itv.add]
 
-theorem subChecked_exact (a b r : Bv) (hs : (subChecked a b).isSome = true)
-    (href : Ref.binOp .IntSub a b = .val r) : subChecked a b = some r := by
+theorem itv_sub_exact (a b r : Bv) (hw : a.w = b.w) (href : Ref.binOp .IntSub a b = .val r) :
+    Itv.sub (.single a) (.single b) = .single r := by
   obtain ⟨aw, av⟩ := a
   obtain ⟨bw, bv⟩ := b
-  simp only [subChecked] at hs ⊢
-  split at hs
-  · next hw =>
-    subst hw
-    simp only [Ref.binOp, sameW, valV, dite_true, ← C01.sub_eq] at href
-    cases href
-    split at hs
-    · simp at hs
-    · next hc => simp [hc]
-  · simp at hs
+  simp only at hw
+  subst hw
+  simp only [Ref.binOp, sameW, valV, dite_true, ← C01.sub_eq] at href
+  cases href
+  simp [Itv.sub]
 
-/-- the product `mulFlag` reports is the reference product -/
-theorem mulFlag_exact (a b r r0 : Bv) (fl : Bool) (hw : a.w ≤ 64) (hs : mulFlag a b = some (r0, fl))
-    (href : Ref.binOp .IntMult a b = .val r) : r0 = r := by
-  obtain ⟨aw, av⟩ := a
-  obtain ⟨bw, bv⟩ := b
-  simp only [mulFlag] at hs
-  split at hs
-  · next hwe =>
-    simp only at hwe hw
-    subst hwe
-    have : ¬ aw > 64 := by omega
-    simp only [Ref.binOp, this, if_false, sameW, valV, dite_true, ← C01.mul_eq] at href
-    cases href
-    split at hs
-    · next hz =>
-      simp only [beq_iff_eq] at hz
-      cases hs
-      simp [hz]
-    · cases hs; rfl
-  · cases hs
-
-theorem itv_mul_exact (a b r r0 : Bv) (hw8 : a.w = 8 * a.bytes) (hw : a.w ≤ 64)
-    (hs : mulFlag a b = some (r0, false)) (href : Ref.binOp .IntMult a b = .val r) :
+/-- the product of two singletons of at most 64 bit is the reference product (also when it overflows) -/
+theorem itv_mul_exact (a b r : Bv) (hw8 : a.w = 8 * a.bytes) (hw : a.w ≤ 64) (hwe : a.w = b.w)
+    (href : Ref.binOp .IntMult a b = .val r) :
     Itv.mul (.single a) (.single b) = .single r := by
-  have e := mulFlag_exact a b r r0 false hw hs href
-  subst e
-  have : ¬ 8 * (Itv.single a).bytes > 64 := by simp only [Itv.bytes]; omega
-  simp only [Itv.mul, this, if_false, hs]
-
-theorem mulFlag_false_of_match (a b : Bv)
-    (h : (match mulFlag a b with | some (_, false) => true | _ => false) = true) :
-    ∃ r0, mulFlag a b = some (r0, false) := by
-  split at h
-  · next r0 heq => exact ⟨r0, heq⟩
-  · cases h
+  have hb : ¬ 8 * (Itv.single a).bytes > 64 := by simp only [Itv.bytes]; omega
+  obtain ⟨aw, av⟩ := a
+  obtain ⟨bw, bv⟩ := b
+  simp only at hwe hw
+  subst hwe
+  have : ¬ aw > 64 := by omega
+  simp only [Ref.binOp, this, if_false, sameW, valV, dite_true, ← C01.mul_eq] at href
+  cases href
+  simp only [Itv.mul, hb, if_false, dite_true]
 
 theorem mul_one_shl (w n : Nat) (x : BitVec w) : x * (1#w <<< n) = x <<< n := by
   rw [BitVec.shiftLeft_eq_mul_twoPow x n]; rfl
 
 theorem itv_shl_exact (a b r : Bv) (hw8 : a.w = 8 * a.bytes) (hw : a.w ≤ 64) (hb : b.toNat < 2 ^ 64)
-    (hfr : a.w ≤ b.toNat ∨
-      (match mulFlag a ⟨a.w, 1#a.w <<< b.toNat⟩ with | some (_, false) => true | _ => false) = true)
     (href : Ref.binOp .IntLeft a b = .val r) :
     Itv.shiftLeft (.single a) (.single b) = .single r := by
   simp only [Ref.binOp, hb, if_true, valV] at href
@@ -108,10 +75,7 @@ theorem itv_shl_exact (a b r : Bv) (hw8 : a.w = 8 * a.bytes) (hw : a.w ≤ 64) (
   by_cases hn : b.toNat < a.w
   · simp only [hn, if_true] at href ⊢
     cases href
-    have : ¬ a.w ≤ b.toNat := by omega
-    have hfr := hfr.resolve_left this
-    obtain ⟨r0, hr0⟩ := mulFlag_false_of_match _ _ hfr
-    apply itv_mul_exact a _ _ r0 hw8 hw hr0
+    apply itv_mul_exact a ⟨a.w, 1#a.w <<< b.toNat⟩ _ hw8 hw rfl
     obtain ⟨aw, av⟩ := a
     have : ¬ aw > 64 := by simp only at hw; omega
     simp only [Ref.binOp, this, if_false, sameW, valV, dite_true, ← C01.mul_eq, mul_one_shl]
@@ -119,7 +83,7 @@ theorem itv_shl_exact (a b r : Bv) (hw8 : a.w = 8 * a.bytes) (hw : a.w ≤ 64) (
     cases href
     rfl
 
-theorem itv_binOp_exact (op : BinOpType) (a b r : Bv) (h : cpBin true op a b = some r) :
+theorem itv_binOp_exact (strict : Bool) (op : BinOpType) (a b r : Bv) (h : cpBin strict op a b = some r) :
     Itv.binOp op (.single a) (.single b) = .single r := by
   simp only [cpBin] at h
   split at h
@@ -133,22 +97,19 @@ theorem itv_binOp_exact (op : BinOpType) (a b r : Bv) (h : cpBin true op a b = s
     cases op <;> simp only [cpBinInFrag, Bool.false_eq_true] at hfr <;>
       simp only [cpBinSized, decide_eq_true_eq] at hsz
     case IntAdd =>
-      simp only [Bool.not_true, Bool.false_or] at hfr
-      simp only [Itv.binOp, Itv.add, addChecked_exact a b r hfr href]
+      simp only [Itv.binOp]
+      exact itv_add_exact a b r hsz href
     case IntSub =>
-      simp only [Bool.not_true, Bool.false_or] at hfr
-      simp only [Itv.binOp, Itv.sub, subChecked_exact a b r hfr href]
+      simp only [Itv.binOp]
+      exact itv_sub_exact a b r hsz href
     case IntMult =>
-      simp only [Bool.not_true, Bool.false_or, Bool.and_eq_true, decide_eq_true_eq] at hfr
-      obtain ⟨r0, hr0⟩ := mulFlag_false_of_match a b hfr.2
+      simp only [Bool.and_eq_true, decide_eq_true_eq] at hfr
       simp only [Itv.binOp]
-      exact itv_mul_exact a b r r0 hw hfr.1 hr0 href
+      exact itv_mul_exact a b r hw hfr.1 hsz href
     case IntLeft =>
-      simp only [Bool.not_true, Bool.false_or, Bool.and_eq_true, decide_eq_true_eq] at hfr
+      simp only [Bool.and_eq_true, decide_eq_true_eq] at hfr
       simp only [Itv.binOp]
-      have h2 := hfr.2
-      rw [Bool.or_eq_true, decide_eq_true_eq] at h2
-      exact itv_shl_exact a b r hw hfr.1 hsz h2 href
+      exact itv_shl_exact a b r hw hfr.1 hsz href
     case IntRight => exact hfirst hsz
     case IntSRight => exact hfirst hsz
     case IntAnd => exact hfirst hsz
@@ -159,12 +120,12 @@ theorem itv_binOp_exact (op : BinOpType) (a b r : Bv) (h : cpBin true op a b = s
 
 /-! ### `Data` values that are constants -/
 
-theorem data_binOp_const (op : BinOpType) (a b r : Bv) (h : cpBin true op a b = some r) :
+theorem data_binOp_const (strict : Bool) (op : BinOpType) (a b r : Bv) (h : cpBin strict op a b = some r) :
     (AData.const a).binOp op (AData.const b) = AData.const r := by
   simp only [AData.binOp, AData.const, AData.ofItv, AData.getIfAbsoluteValue, Option.isNone_none,
-    Bool.not_false, Bool.and_self, if_true, itv_binOp_exact op a b r h]
+    Bool.not_false, Bool.and_self, if_true, itv_binOp_exact strict op a b r h]
 
-theorem data_unOp_const (op : UnOpType) (a r : Bv) (h : cpUn true op a = some r) :
+theorem data_unOp_const (strict : Bool) (op : UnOpType) (a r : Bv) (h : cpUn strict op a = some r) :
     (AData.const a).unOp op = AData.const r := by
   obtain ⟨aw, av⟩ := a
   cases op with
@@ -182,9 +143,7 @@ theorem data_unOp_const (op : UnOpType) (a r : Bv) (h : cpUn true op a = some r)
       have := resToOpt_some _ _ h
       simp only [Ref.unOp, valV, ← C01.neg_eq] at this
       cases this
-      simp only [Bool.true_and] at hc
-      have hc' : ¬ av = BitVec.intMin aw := by simpa using hc
-      simp [AData.unOp, AData.const, AData.ofItv, Itv.unOp, Itv.bytes, Bv.bytes, hc']
+      simp [AData.unOp, AData.const, AData.ofItv, Itv.unOp, Itv.bytes, Bv.bytes]
   | _ => simp [cpUn] at h
 
 theorem data_cast_const (op : CastOpType) (sz : Nat) (a r : Bv) (h : cpCast op sz a = some r) :
@@ -269,47 +228,29 @@ theorem data_subpiece_const (low sz : Nat) (a r : Bv) (h : cpSubpiece low sz a =
 
 /-! ### stack addresses -/
 
-theorem isSome_of_not_strict_none {α} (o : Option α) (h : ¬ (true && o.isNone) = true) :
-    o.isSome = true := by
-  cases o <;> simp at h ⊢
-
-theorem addChecked_some64 (o bv : BitVec 64) (h : (addChecked ⟨64, o⟩ ⟨64, bv⟩).isSome = true) :
-    addChecked ⟨64, o⟩ ⟨64, bv⟩ = some ⟨64, o + bv⟩ := by
-  simp only [addChecked, dite_true] at h ⊢
-  split at h
-  · simp at h
-  · next hc => simp [hc]
-
-theorem subChecked_some64 (o bv : BitVec 64) (h : (subChecked ⟨64, o⟩ ⟨64, bv⟩).isSome = true) :
-    subChecked ⟨64, o⟩ ⟨64, bv⟩ = some ⟨64, o - bv⟩ := by
-  simp only [subChecked, dite_true] at h ⊢
-  split at h
-  · simp at h
-  · next hc => simp [hc]
-
-theorem data_sp_add_const (o bv : BitVec 64) (h : (addChecked ⟨64, o⟩ ⟨64, bv⟩).isSome = true) :
+theorem data_sp_add_const (o bv : BitVec 64) :
     (AData.sp ⟨64, o⟩).binOp .IntAdd (AData.const ⟨64, bv⟩) = AData.sp ⟨64, o + bv⟩ := by
   simp [AData.binOp, AData.sp, AData.fromTarget, AData.const, AData.ofItv, AData.getIfAbsoluteValue,
     AData.computeAdd, AData.getIfAbsoluteValueOrTop, AData.addOffset, Itv.binOp, Itv.add,
-    addChecked_some64 o bv h, Itv.bytes, Bv.bytes]
+    Itv.bytes, Bv.bytes]
 
-theorem data_sp_sub_const (o bv : BitVec 64) (h : (subChecked ⟨64, o⟩ ⟨64, bv⟩).isSome = true) :
+theorem data_sp_sub_const (o bv : BitVec 64) :
     (AData.sp ⟨64, o⟩).binOp .IntSub (AData.const ⟨64, bv⟩) = AData.sp ⟨64, o - bv⟩ := by
   simp [AData.binOp, AData.sp, AData.fromTarget, AData.const, AData.ofItv, AData.getIfAbsoluteValue,
     AData.computeSub, AData.isEmpty, AData.subtractOffset, Itv.binOp, Itv.sub,
-    subChecked_some64 o bv h, Itv.bytes, Bv.bytes]
+    Itv.bytes, Bv.bytes]
 
-theorem data_const_add_sp (o av : BitVec 64) (h : (addChecked ⟨64, o⟩ ⟨64, av⟩).isSome = true) :
+theorem data_const_add_sp (o av : BitVec 64) :
     (AData.const ⟨64, av⟩).binOp .IntAdd (AData.sp ⟨64, o⟩) = AData.sp ⟨64, av + o⟩ := by
   simp [AData.binOp, AData.sp, AData.fromTarget, AData.const, AData.ofItv, AData.getIfAbsoluteValue,
     AData.computeAdd, AData.getIfAbsoluteValueOrTop, AData.addOffset, Itv.binOp, Itv.add,
-    addChecked_some64 o av h, Itv.bytes, Bv.bytes, BitVec.add_comm]
+    Itv.bytes, Bv.bytes, BitVec.add_comm]
 
-theorem data_sp_sub_sp (o₁ o₂ : BitVec 64) (h : (subChecked ⟨64, o₁⟩ ⟨64, o₂⟩).isSome = true) :
+theorem data_sp_sub_sp (o₁ o₂ : BitVec 64) :
     (AData.sp ⟨64, o₁⟩).binOp .IntSub (AData.sp ⟨64, o₂⟩) = AData.const ⟨64, o₁ - o₂⟩ := by
   simp [AData.binOp, AData.sp, AData.fromTarget, AData.const, AData.ofItv, AData.getIfAbsoluteValue,
     AData.computeSub, AData.isEmpty, AData.getIfUniqueTarget, Itv.binOp, Itv.sub,
-    subChecked_some64 o₁ o₂ h, Itv.bytes, Bv.bytes]
+    Itv.bytes, Bv.bytes]
 
 /-! ### the invariant between the constant propagation and the model state -/
 
@@ -318,10 +259,10 @@ structure Inv (k : K) (s : St) : Prop where
   cells : ∀ c, c ∈ k.cells → 0 < c.size ∧ (∃ m, m ∈ s.cells ∧ m.1 = c.pos) ∧
     (∀ m, m ∈ s.cells → m.1 = c.pos → m.2 = embed c.val ∧ m.2.size = c.size)
 
-/-- **evaluation**: on expressions the strict constant propagation evaluates, the model's `eval`
-returns exactly that constant / stack address -/
-theorem eval_exact (k : K) (s : St) (hr : ∀ v sv, k.getReg v = some sv → s.getReg v = embed sv) :
-    ∀ (e : Expression) (sv : SVal), cpExpr true k e = some sv → s.eval e = embed sv := by
+/-- **evaluation**: on expressions the constant propagation evaluates (any `strict`, in particular the
+full fragment), the model's `eval` returns exactly that constant / stack address -/
+theorem eval_exact (strict : Bool) (k : K) (s : St) (hr : ∀ v sv, k.getReg v = some sv → s.getReg v = embed sv) :
+    ∀ (e : Expression) (sv : SVal), cpExpr strict k e = some sv → s.eval e = embed sv := by
   intro e
   induction e with
   | Var v => intro sv h; simp only [cpExpr] at h; simp only [St.eval]; exact hr v sv h
@@ -335,7 +276,7 @@ theorem eval_exact (k : K) (s : St) (hr : ∀ v sv, k.getReg v = some sv → s.g
       simp only [Option.map_eq_some_iff] at h
       obtain ⟨r, hr', rfl⟩ := h
       simp only [St.eval, ih _ hx, embed]
-      exact data_unOp_const op x r hr'
+      exact data_unOp_const strict op x r hr'
     · simp at h
   | Cast op sz a ih =>
     intro sv h
@@ -372,7 +313,7 @@ theorem eval_exact (k : K) (s : St) (hr : ∀ v sv, k.getReg v = some sv → s.g
         simp only [Option.map_eq_some_iff] at h
         obtain ⟨r', h1, rfl⟩ := h
         simp only [St.eval, hx, if_false, ihl _ ha, ihr _ hb, embed]
-        exact data_binOp_const op a b r' h1
+        exact data_binOp_const strict op a b r' h1
     · next o b ho hb =>
       obtain ⟨bw, bv⟩ := b
       split at h
@@ -388,13 +329,13 @@ theorem eval_exact (k : K) (s : St) (hr : ∀ v sv, k.getReg v = some sv → s.g
           · next hc =>
             cases h
             simp only [St.eval, hne, if_false, ihl _ ho, ihr _ hb, embed]
-            exact data_sp_add_const _ _ (isSome_of_not_strict_none _ hc)
+            exact data_sp_add_const _ _
         · split at h
           · cases h
           · next hc =>
             cases h
             simp only [St.eval, hne, if_false, ihl _ ho, ihr _ hb, embed]
-            exact data_sp_sub_const _ _ (isSome_of_not_strict_none _ hc)
+            exact data_sp_sub_const _ _
       · cases h
     · next a o ha ho =>
       obtain ⟨aw, av⟩ := a
@@ -411,7 +352,7 @@ theorem eval_exact (k : K) (s : St) (hr : ∀ v sv, k.getReg v = some sv → s.g
         · next hc =>
           cases h
           simp only [St.eval, hne, if_false, ihl _ ha, ihr _ ho, embed]
-          exact data_const_add_sp _ _ (isSome_of_not_strict_none _ hc)
+          exact data_const_add_sp _ _
       · cases h
     · next o₁ o₂ h1 h2 =>
       cases op <;> simp only at h <;> (try cases h)
@@ -422,7 +363,7 @@ theorem eval_exact (k : K) (s : St) (hr : ∀ v sv, k.getReg v = some sv → s.g
         have hne : ¬ (BinOpType.IntSub = BinOpType.IntXOr ∧ l = r) := by
           rintro ⟨hh, _⟩; cases hh
         simp only [St.eval, hne, if_false, ihl _ h1, ihr _ h2, embed]
-        exact data_sp_sub_sp _ _ (isSome_of_not_strict_none _ hc)
+        exact data_sp_sub_sp _ _
     · simp at h
 
 
@@ -528,18 +469,19 @@ theorem mem_clearInterval (cs : Cells) (pos : Int) (n : Nat) (m : Int × AData) 
   simp only [clearInterval, List.mem_filter, disjointCell]
 
 /-- **one definition** keeps the invariant -/
-theorem cpDef_exact (k : K) (s : St) (d : Def) (hi : Inv k s) : Inv (cpDef true k d) (s.handleDef d) := by
+theorem cpDef_exact (strict : Bool) (k : K) (s : St) (d : Def) (hi : Inv k s) :
+    Inv (cpDef strict k d) (s.handleDef d) := by
   cases d with
   | Assign v e =>
     simp only [cpDef, St.handleDef, St.handleAssign]
     split
-    · next sv hs => rw [eval_exact k s hi.regs e sv hs]; exact hi.setReg_known v sv
+    · next sv hs => rw [eval_exact strict k s hi.regs e sv hs]; exact hi.setReg_known v sv
     · exact hi.forget v _
   | Load v a =>
     simp only [cpDef, St.handleDef, St.handleLoad]
     split
     · next o ho =>
-      rw [eval_exact k s hi.regs a _ ho]
+      rw [eval_exact strict k s hi.regs a _ ho]
       split
       · next sv hs =>
         simp only [embed, load_sp_exact hi o v.size sv hs]
@@ -555,7 +497,7 @@ theorem cpDef_exact (k : K) (s : St) (d : Def) (hi : Inv k s) : Inv (cpDef true 
         simp only [Bool.and_eq_true] at hb
         obtain ⟨hin, _⟩ := hb
         simp only [inBounds, Bool.and_eq_true, decide_eq_true_eq] at hin
-        rw [eval_exact k s hi.regs a _ ho, eval_exact k s hi.regs e _ hs]
+        rw [eval_exact strict k s hi.regs a _ ho, eval_exact strict k s hi.regs e _ hs]
         show Inv _ { s with cells := listSetValue s.cells (AData.sp ⟨64, o⟩) (embed sv) }
         rw [store_sp_cells]
         refine ⟨hi.regs, ?_⟩
@@ -595,15 +537,15 @@ theorem cpDef_exact (k : K) (s : St) (d : Def) (hi : Inv k s) : Inv (cpDef true 
       · exact ⟨hi.regs, by intro c hc; simp at hc⟩
     · exact ⟨hi.regs, by intro c hc; simp at hc⟩
 
-theorem cpDefs_exact : ∀ (defs : List (Term Def)) (k : K) (s : St), Inv k s →
-    Inv (cpDefs true k defs) (defs.foldl (fun s d => s.handleDef d.term) s) := by
+theorem cpDefs_exact (strict : Bool) : ∀ (defs : List (Term Def)) (k : K) (s : St), Inv k s →
+    Inv (cpDefs strict k defs) (defs.foldl (fun s d => s.handleDef d.term) s) := by
   intro defs
   induction defs with
   | nil => intro k s hi; exact hi
   | cons d ds ih =>
     intro k s hi
     simp only [cpDefs, List.foldl_cons]
-    exact ih _ _ (cpDef_exact k s d.term hi)
+    exact ih _ _ (cpDef_exact strict k s d.term hi)
 
 theorem St.init_eq (sp : Variable) (h : sp.size = 8) :
     St.init sp = { regs := [(sp, AData.sp ⟨64, 0⟩)], cells := [] } := by
@@ -629,13 +571,14 @@ theorem tryToBitvec_const (b : Bv) : (AData.const b).tryToBitvec = some b := by
   simp [AData.tryToBitvec, AData.const, AData.ofItv, Itv.tryToBitvec]
 
 /-- **C18-model-exact.** If the block computes the parameter as the constant `b` from constants
-alone without a signed overflow (`blockConst true`), then the block-end state of the model evaluates
-the parameter to exactly the singleton `b`: `try_to_bitvec` succeeds with `b`. -/
-theorem model_param_exact (sp : Variable) (hsp : sp.size = 8) (defs : List (Term Def)) (p : Arg) (b : Bv)
-    (h : blockConst true sp defs p = some b) :
+alone (`blockConst strict`, for `strict = false` the full fragment including signed overflows), then the
+block-end state of the model evaluates the parameter to exactly the singleton `b`: `try_to_bitvec`
+succeeds with `b`. -/
+theorem model_param_exact (strict : Bool) (sp : Variable) (hsp : sp.size = 8) (defs : List (Term Def)) (p : Arg)
+    (b : Bv) (h : blockConst strict sp defs p = some b) :
     ∃ d, (blockEndState sp defs).evalParameterArg p = some d ∧ d.tryToBitvec = some b := by
-  have hi : Inv (cpDefs true (K.init sp) defs) (blockEndState sp defs) :=
-    cpDefs_exact defs _ _ (Inv.init sp hsp)
+  have hi : Inv (cpDefs strict (K.init sp) defs) (blockEndState sp defs) :=
+    cpDefs_exact strict defs _ _ (Inv.init sp hsp)
   simp only [blockConst] at h
   cases p with
   | Register e dt =>
@@ -644,7 +587,7 @@ theorem model_param_exact (sp : Variable) (hsp : sp.size = 8) (defs : List (Term
     · next b' he =>
       cases h
       refine ⟨_, rfl, ?_⟩
-      rw [eval_exact _ _ hi.regs e _ he]
+      rw [eval_exact strict _ _ hi.regs e _ he]
       exact tryToBitvec_const b
     · cases h
   | Stack a size dt =>
@@ -655,16 +598,16 @@ theorem model_param_exact (sp : Variable) (hsp : sp.size = 8) (defs : List (Term
       · next b' hc =>
         cases h
         refine ⟨AData.const b, ?_, tryToBitvec_const b⟩
-        simp only [St.evalParameterArg, eval_exact _ _ hi.regs a _ ho, embed]
+        simp only [St.evalParameterArg, eval_exact strict _ _ hi.regs a _ ho, embed]
         exact load_sp_exact hi o size _ hc
       · cases h
     · cases h
 
 /-- the model's constant for the parameter (`…try_to_bitvec()?.try_to_u64()?`) -/
-theorem model_paramConst (sp : Variable) (hsp : sp.size = 8) (defs : List (Term Def)) (p : Arg) (b : Bv)
-    (h : blockConst true sp defs p = some b) (hb : b.toNat < 2 ^ 64) :
+theorem model_paramConst (strict : Bool) (sp : Variable) (hsp : sp.size = 8) (defs : List (Term Def)) (p : Arg)
+    (b : Bv) (h : blockConst strict sp defs p = some b) (hb : b.toNat < 2 ^ 64) :
     (blockEndState sp defs).paramConst p = some b.toNat := by
-  obtain ⟨d, h1, h2⟩ := model_param_exact sp hsp defs p b h
+  obtain ⟨d, h1, h2⟩ := model_param_exact strict sp hsp defs p b h
   simp [St.paramConst, h1, h2, tryToU64, hb]
 
 end CweModel.C18
